@@ -408,6 +408,12 @@ FIXED += [
       "expr": {"var": "v0", "expr": F("count_star")}}),
 ]
 
+FIXED += [
+    ('F59-sql-pow-float-decimal', 'C03', 'SQL pow of float operands returns a float, not a decimal',
+     'SQL: pow() of Float operands was typed NUMERIC (sqa.Float is a subclass of sqa.Numeric): results came back as Decimal, export failed for magnitudes beyond Decimal128',
+     json.loads('{"result": "v1", "steps": [{"out": "v0", "table": "t0", "verb": "source"}, {"in": "v0", "items": [["y", ["fn", "pow", [["fn", "mul", [["col", {"n": "x", "v": "v0"}], ["fn", "hmax", [["col", {"n": "x", "v": "v0"}], ["col", {"c": "x"}], ["col", {"c": "x"}]], {}]], {}], ["lit", 3.0]], {}]]], "out": "v1", "verb": "mutate"}], "tables": [{"cols": [["id", "int64"], ["x", "float64"], ["c", "datetime"], ["d", "datetime"], ["k", "bool"]], "name": "t0", "rows": [[3, -64798.0, null, null, null]]}]}')),
+]
+
 
 def main():
     log = subprocess.run(["git", "-C", "/repo", "log", "--format=%h %s"], capture_output=True, text=True).stdout.splitlines()
